@@ -313,6 +313,17 @@ KERNELS = [
     ('detail_Schedule', None, ['yaclib/lazy/schedule.hpp'], 'yaclib::detail::Schedule', 'lazy/schedule.hpp', 'Schedule', 'template'),
     ('Task_Start', 'src/lazy/task_impl.cpp', None, 'yaclib::detail::Start', 'task_impl.cpp', 'Start', 'template'),
     ('Task_dtor', None, ['yaclib/lazy/task.hpp'], 'yaclib::Task', 'lazy/task.hpp', '~Task<V, E>', 0),
+    # C20: every header on the co_await / Wait path, whole text (comments and white space dropped): "co_await of futures and
+    # Wait* allocate nothing" rests on the awaiter / event SELECTION in these files (Extracted/AllocSites.lean)
+    ('CoSrc_await_hpp', 'include/yaclib/coro/await.hpp', None, None, None, None, 'text'),
+    ('CoSrc_await_inline_hpp', 'include/yaclib/coro/await_inline.hpp', None, None, None, None, 'text'),
+    ('CoSrc_await_on_hpp', 'include/yaclib/coro/await_on.hpp', None, None, None, None, 'text'),
+    ('CoSrc_await_sticky_hpp', 'include/yaclib/coro/await_sticky.hpp', None, None, None, None, 'text'),
+    ('CoSrc_await_awaiter_hpp', 'include/yaclib/coro/detail/await_awaiter.hpp', None, None, None, None, 'text'),
+    ('CoSrc_await_on_awaiter_hpp', 'include/yaclib/coro/detail/await_on_awaiter.hpp', None, None, None, None, 'text'),
+    ('CoSrc_shared_event_hpp', 'include/yaclib/algo/detail/shared_event.hpp', None, None, None, None, 'text'),
+    ('CoSrc_wait_event_hpp', 'include/yaclib/algo/detail/wait_event.hpp', None, None, None, None, 'text'),
+    ('CoSrc_wait_impl_hpp', 'include/yaclib/async/detail/wait_impl.hpp', None, None, None, None, 'text'),
     # free jobs (C05, Model/FreeJob.lean): yaclib::Submit(executor, f) and the UniqueJob it allocates
     ('Submit_free', None, ['yaclib/exe/submit.hpp'], 'yaclib::Submit', 'exe/submit.hpp', 'Submit', 'template'),
     ('MakeUniqueJob', None, ['yaclib/exe/submit.hpp'], 'yaclib::detail::MakeUniqueJob', 'unique_job.hpp', 'MakeUniqueJob', 'template'),
